@@ -473,16 +473,43 @@ package listz
 // reach(cur, i): cur can be indexed at level i and below
 //@ spec canStep(cur ref, i int) bool = cur != nil && i < len(cur.next)
 
+// ---- the skip list as a SORTED SEQUENCE (proof group [sq], SkipList only) ----
+// Ghost: seq holds the level-0 chain from the head sentinel (seq[0] is the head, seq[1..len] the nodes in order), every
+// node carries its position pos and its owning list own. A node is a member iff own says so, and then seq[pos] is it.
+//@ ghostfield SkipList.seq seq
+//@ ghostfield SkipNode.pos
+//@ ghostfield SkipNode.own ref
+//@ spec skn(p int) ref = cast(SkipNode, p)
+//@ spec skIn(s ref, x ref) bool = x == s.head || (x != nil && x.own == s)
+//@ spec skMem(s ref) bool = s.len >= 0 && s.seq[0] == s.head && s.head.pos == 0 && s.head.own == nil && (forall k in 1..s.len+1: s.seq[k] != nil && s.seq[k] != s.head && allocated(s.seq[k]) && skn(s.seq[k]).own == s && skn(s.seq[k]).pos == k && 1 <= len(skn(s.seq[k]).next)) && (forall e in refs(SkipNode): (e != nil && e.own == s) ==> (1 <= e.pos && e.pos <= s.len && s.seq[e.pos] == e))
+// keys strictly ascending along the sequence (pairwise form: no induction needed)
+//@ spec skKeys(s ref) bool = forall a, b in refs(SkipNode): (a != nil && b != nil && a.own == s && b.own == s && a.pos < b.pos) ==> a.key < b.key
+// every link of a member (or of the head) at level i leads to nil or to a LATER member that is at least i+1 levels high
+//@ spec skLinks(s ref) bool = forall x in refs(SkipNode): forall i in 0..len(x.next): skIn(s, x) ==> (x.next[i] == nil || (x.next[i].own == s && x.next[i].pos > x.pos && i < len(x.next[i].next)))
+// and skips only members that are at most i levels high (so the level-i chain is exactly the members of height > i)
+//@ spec skNoSkip(s ref) bool = forall x, z in refs(SkipNode): forall i in 0..len(x.next): (skIn(s, x) && z != nil && z.own == s && x.pos < z.pos && (x.next[i] == nil || z.pos < x.next[i].pos)) ==> len(z.next) <= i
+// only members (or the head) of s point to members of s
+//@ spec skClosed(s ref) bool = forall n in refs(SkipNode): forall k in 0..len(n.next): (n.next[k] != nil && n.next[k].own == s) ==> skIn(s, n)
+// no member is higher than the list's current level
+//@ spec skHeights(s ref) bool = forall e in refs(SkipNode): (e != nil && e.own == s) ==> len(e.next) <= s.level
+//@ spec skSeq(s ref) bool = skMem(s) && skKeys(s) && skLinks(s) && skNoSkip(s) && skClosed(s) && skHeights(s)
+
 //@ func SkipList.GetNode
 //@   noterm
 //@   noalloc
 //@   requires skOK(s) && towerOK()
 //@   ensures result != nil ==> result.key == key
 //@   ensures len(s.head.next) == 0 ==> result == nil
+//@   requires[sq] skSeq(s)
+//@   ensures[sq] result != nil ==> result.own == s
+//@   ensures[sq] result == nil ==> forall m in refs(SkipNode): (m != nil && m.own == s) ==> m.key != key
 //@   loop 1:
 //@     invariant -1 <= i && i < s.level && cur != nil && (i >= 0 ==> i < len(cur.next))
+//@     invariant[sq] skIn(s, cur) && (cur != s.head ==> cur.key < key)
+//@     invariant[sq] (i < s.level - 1 && len(s.head.next) != 0) ==> (cur.next[i+1] == nil || cur.next[i+1].key > key)
 //@   loop 2:
 //@     invariant 0 <= i && cur != nil && i < len(cur.next)
+//@     invariant[sq] skIn(s, cur) && (cur != s.head ==> cur.key < key)
 
 //@ func SkipList.Get
 //@   noterm
@@ -508,6 +535,101 @@ package listz
 //@     invariant 0 <= i && i < s.level && cur != nil && i < len(cur.next) && towerOK() && skOK(s)
 //@   loop 3:
 //@     invariant cur != nil && 0 < len(cur.next) && towerOK() && skOK(s)
+
+// U(j): update[j] is the predecessor of key on level j (the head or a member below key that is at least j+1 high)
+//@ spec skPred(s ref, u bytes_any, j int, key int) bool = skIn(s, u[j]) && (u[j] != s.head ==> u[j].key < key) && j < len(u[j].next) && (u[j].next[j] == nil || u[j].next[j].key >= key)
+
+//@ func SkipList.Remove
+//@   noterm
+//@   requires skOK(s) && towerOK()
+//@   requires[sq] skSeq(s)
+//@   modifies s.len, s.level, anyelems(SkipNode.next), anyof(SkipNode.next)
+//@   modifies[sq] s.seq, anyof(SkipNode.pos), anyof(SkipNode.own)
+//@   ensures skOK(s)
+//@   ensures[sq] skMem(s)
+//@   ensures[sq] skKeys(s)
+//@   ensures[sq] skLinks(s)
+//@   ensures[sq] skClosed(s)
+//@   ensures[sq] skNoSkip(s)
+//@   ensures[sq] towerOK()
+//@   ensures[sq] skHeights(s)
+//@   ensures[sq] forall m in refs(SkipNode): (m != nil && m.own == s) == (m != nil && old(m.own) == s && old(m.key) != key)
+//@   ensures[sq] forall m in refs(SkipNode): m.key == old(m.key) && m.val == old(m.val) && ((m != nil && old(m.own) != s) ==> (m.own == old(m.own) && m.pos == old(m.pos)))
+//@   ensures[sq] result2 == (s.len != old(s.len)) && s.len == ite(result2, old(s.len) - 1, old(s.len))
+//@   ensures[sq] forall m in refs(SkipNode): (m != nil && old(m.own) == s && old(m.key) == key) ==> (result2 && result1 == old(m.val))
+//@   ensures[sq] !result2 ==> forall k in 0..s.len+1: s.seq[k] == old(s.seq[k])
+//@   ghost[sq] s0 = s.seq
+//@   ghost[sq] p = 0
+//@   at end:
+//@     ghost[sq] all SkipNode.pos = seqdef y: ite(x0 != nil && old(skn(y).own) == s && skn(y).pos > p, skn(y).pos - 1, skn(y).pos)
+//@     ghost[sq] x0.pos = 0
+//@     ghost[sq] x0.own = nil
+//@     ghost[sq] s.seq = ite(x0 != nil, seqdef k: ite(k < p, s0[k], s0[k+1]), s0)
+//@     assert[sq] skMem(s)
+//@     assert[sq] skNoSkip(s)
+//@     assert[sq] s.level < old(s.level) ==> (s.head.next[s.level] == nil && s.level < len(s.head.next))
+//@     assert[sq] s.level < old(s.level) ==> forall z in refs(SkipNode): (z != nil && z.own == s) ==> (s.head.pos < z.pos && len(z.next) <= s.level)
+//@   loop 1:
+//@     invariant -1 <= i && i < s.level && cur != nil && (i >= 0 ==> i < len(cur.next)) && 0 <= curLevel && curLevel <= s.level
+//@     invariant len(update) == 32 && notTower(update) && fresh(update)
+//@     invariant[sq] forall n in refs(SkipNode): forall k in 0..len(n.next): n.next[k] == old(n.next[k])
+//@     invariant[sq] forall n in refs(SkipNode): (len(n.next) == old(len(n.next)) && n.next.arr == old(n.next.arr) && n.pos == old(n.pos) && n.own == old(n.own) && n.key == old(n.key))
+//@     invariant[sq] skMem(s)
+//@     invariant[sq] skKeys(s)
+//@     invariant[sq] skLinks(s)
+//@     invariant[sq] skNoSkip(s)
+//@     invariant[sq] skIn(s, cur) && (cur != s.head ==> cur.key < key)
+//@     invariant[sq] forall j in i+1..s.level: skPred(s, update, j, key)
+//@     invariant[sq] i < s.level - 1 ==> update[i+1] == cur
+//@     invariant[sq] curLevel == 0 ==> forall m in refs(SkipNode): (m != nil && m.own == s && m.key == key) ==> len(m.next) <= i + 1
+//@     invariant[sq] curLevel != 0 ==> (curLevel > i + 1 && forall j in i+1..curLevel: (update[j].next[j] != nil && update[j].next[j].key == key && len(update[j].next[j].next) == curLevel))
+//@   loop 2:
+//@     invariant 0 <= i && i < s.level && cur != nil && i < len(cur.next) && 0 <= curLevel && curLevel <= s.level
+//@     invariant[sq] curLevel == 0 ==> forall m in refs(SkipNode): (m != nil && m.own == s && m.key == key) ==> len(m.next) <= i + 1
+//@     invariant[sq] curLevel != 0 ==> (curLevel > i + 1 && forall j in i+1..curLevel: (update[j].next[j] != nil && update[j].next[j].key == key && len(update[j].next[j].next) == curLevel))
+//@     invariant len(update) == 32 && notTower(update) && fresh(update)
+//@     invariant[sq] forall n in refs(SkipNode): forall k in 0..len(n.next): n.next[k] == old(n.next[k])
+//@     invariant[sq] forall n in refs(SkipNode): (len(n.next) == old(len(n.next)) && n.next.arr == old(n.next.arr) && n.pos == old(n.pos) && n.own == old(n.own) && n.key == old(n.key))
+//@     invariant[sq] skMem(s)
+//@     invariant[sq] skKeys(s)
+//@     invariant[sq] skLinks(s)
+//@     invariant[sq] skNoSkip(s)
+//@     invariant[sq] skIn(s, cur) && (cur != s.head ==> cur.key < key)
+//@   loop 3:
+//@     invariant 0 <= i && i <= curLevel && 1 <= curLevel && curLevel <= s.level && cur != nil && cur == x0 && len(cur.next) == curLevel
+//@     invariant len(update) == 32 && notTower(update) && fresh(update) && towerOK() && skOK(s)
+//@     invariant[sq] forall n in refs(SkipNode): (len(n.next) == old(len(n.next)) && n.next.arr == old(n.next.arr) && n.pos == old(n.pos) && n.own == old(n.own) && n.key == old(n.key))
+//@     invariant[sq] forall j in 0..curLevel: (skIn(s, update[j]) && update[j] != x0 && j < len(update[j].next))
+//@     invariant[sq] forall j in i..curLevel: update[j].next[j] == x0
+//@     invariant[sq] forall j in 0..curLevel: forall n in refs(SkipNode): n == update[j] ==> old(n.next[j]) == x0
+//@     invariant[sq] forall j in 0..i: update[j].next[j] == old(skn(x0).next[j])
+//@     invariant[sq] forall n in refs(SkipNode): forall k in 0..len(n.next): (k >= i || n != update[k]) ==> n.next[k] == old(n.next[k])
+//@   loop 4:
+//@     invariant 1 <= s.level && s.level <= 32 && s.level <= old(s.level)
+//@     invariant[sq] forall k in s.level..old(s.level): s.head.next[k] == nil
+//@   ghost x0 = nil
+//@   at loop1.after:
+//@     assert[sq] curLevel != 0 ==> forall j in 0..curLevel: (update[j].next[j] == cur.next[0] && skIn(s, update[j]) && update[j] != cur.next[0] && j < len(update[j].next))
+//@     ghost x0 = ite(curLevel != 0, cur.next[0], nil)
+//@     ghost[sq] p = ite(curLevel != 0, cur.next[0].pos, 0)
+//@   at loop3.after:
+//@     assert[sq] forall n in refs(SkipNode): forall k in 0..len(n.next): old(n.next[k]) == x0 ==> (k < curLevel && n == update[k])
+//@     assert[sq] forall n in refs(SkipNode): forall k in 0..len(n.next): (n.next[k] == old(n.next[k]) || (old(n.next[k]) == x0 && n.next[k] == old(skn(x0).next[k])))
+//@     assert[sq] forall k in 0..curLevel: old(skn(x0).next[k]) != x0
+//@     assert[sq] forall n in refs(SkipNode): forall k in 0..len(n.next): old(n.next[k]) == x0 ==> n.next[k] != x0
+//@     assert[sq] forall n in refs(SkipNode): forall k in 0..len(n.next): n.next[k] != x0
+//@   at loop3.body-end:
+//@     assert[sq] forall j in i+1..curLevel: (update[j] == update[i] || update[j].next.arr != update[i].next.arr)
+//@     assert[sq] forall j in i+1..curLevel: update[j].next[j] == x0
+//@   at loop2.after:
+//@     assert[sq] (curLevel > i + 1) ==> (skIn(s, update[curLevel-1]) && curLevel - 1 < len(update[curLevel-1].next) && update[curLevel-1].next[curLevel-1] != nil)
+//@     assert[sq] (curLevel > i + 1) ==> skn(update[curLevel-1].next[curLevel-1]).own == s
+//@     assert[sq] (curLevel > i + 1) ==> skn(update[curLevel-1].next[curLevel-1]).key == key
+//@     assert[sq] (curLevel > i + 1) ==> skn(update[curLevel-1].next[curLevel-1]).pos != cur.pos
+//@     assert[sq] (curLevel > i + 1) ==> skn(update[curLevel-1].next[curLevel-1]).pos > cur.pos
+//@     assert[sq] (curLevel > i + 1) ==> (cur.next[i] != nil && cur.next[i].pos <= skn(update[curLevel-1].next[curLevel-1]).pos)
+//@     assert[sq] curLevel != 0 ==> (cur.next[i] != nil && cur.next[i].key == key)
+//@     assert[sq] curLevel != 0 ==> len(cur.next[i].next) == curLevel
 
 // the scratch slice of predecessors shares its element heap with the towers: it must not be one of them
 //@ spec notTower(u bytes_any) bool = forall n in refs(SkipNode): len(n.next) > 0 ==> n.next.arr != u.arr
